@@ -412,7 +412,7 @@ func (w *c11World) connection(idx int, rng interface{ Intn(int) int }) {
 
 func TestVfC11(t *testing.T) {
 	r := vfkit.New("C11")
-	defer r.Flush(true)
+	defer r.Finish()
 	emailOn := r.Batch()%2 == 1
 	e := vfBoot(vfConfig{EmailVal: emailOn})
 	vfInstallRecorder(e)
